@@ -184,7 +184,7 @@ def write_evidence(pid, tier, level, obls, wall, trusted_base, not_covered, chec
                    extra=None):
     os.makedirs(os.path.join(VERIF, 'evidence'), exist_ok=True)
     proved = [o for o in obls if o.status in ('proved', 'known')]
-    nontriv = [o for o in obls if o.status == 'proved' and (o.vacuity in (None, 'reachable', 'sat'))]
+    nontriv = [o for o in obls if o.status == 'proved' and o.vacuity and not any(w in str(o.vacuity) for w in ('not reachable', 'unknown', 'covers (', 'unsat'))]
     viol = [o for o in obls if o.status == 'violated']
     samples = []
     for o in obls[:6]:
